@@ -143,6 +143,37 @@ def run(ctx):
                 rec.update({"out": enc(None), "raised": True, "exc": repr(e)})
             recs.append(rec)
             ctx.count()
+    # ---------------- two generators on one file, as annet merges them (RunGeneratorResult.new_json_fragment_files): full pass, safe pass,
+    # full pass again on the same result object; every pass is judged as "second fragment merged into (first fragment merged into old)"
+    from annet.generators.result import RunGeneratorResult
+    from annet.types import GeneratorJSONFragmentResult
+    import copy as _copy
+    for _ in range(300 if quick else 6000):
+        old = rdoc(2)
+        fa, fb = schema_fix(old, rdoc(2)), schema_fix(old, rdoc(2))
+        schema_fix(fa, fb)
+        pa = [rpat()[:rnd.randint(1, 2)] for _ in range(rnd.randint(1, 2))]
+        pb = [pa[0] + rpat()[:1]] if rnd.random() < 0.6 else [rpat() for _ in range(rnd.randint(1, 2))]      # often inside the first one's part
+        sa, sb = pa[:1], pb[:1]                                                                      # the "safe" pointer lists
+        txt = lambda acl: ["/" + "/".join(esc(x) for x in p) for p in acl]
+        res = RunGeneratorResult()
+        ka, kb = json.dumps(fa), json.dumps(fb)
+        res.add_json_fragment(GeneratorJSONFragmentResult(name="A", tags=[], path="f", acl=txt(pa), acl_safe=txt(sa), config=fa, reload="", perf=None, reload_prio=1))
+        res.add_json_fragment(GeneratorJSONFragmentResult(name="B", tags=[], path="f", acl=txt(pb), acl_safe=txt(sb), config=fb, reload="", perf=None, reload_prio=1))
+        kold = json.dumps(old)
+        for label, safe in (("full", False), ("safe", True), ("again", False)):
+            aa, ab = (sa, sb) if safe else (pa, pb)
+            rec = {"id": "twogen-%s-%d" % (label, len(recs)), "kind": "fragment", "f": enc(json.loads(kb)), "acl": [[list(x) for x in p] for p in ab],
+                   "src": [old, fa, fb, txt(pa), txt(pb), label]}
+            try:
+                mid = jt.apply_json_fragment(_copy.deepcopy(json.loads(kold)), json.loads(ka), txt(aa))       # the first step, on private copies
+                out = res.new_json_fragment_files({"f": old}, safe=safe)["f"][0]
+                rec.update({"old": enc(mid), "r": enc(out), "r2": enc(jt.apply_json_fragment(out, json.loads(kb), txt(ab))), "raised": False,
+                            "inputsKept": json.dumps(fa) == ka and json.dumps(fb) == kb and json.dumps(old) == kold})
+            except Exception as e:
+                rec.update({"old": enc(old), "r": enc(None), "r2": enc(None), "raised": True, "inputsKept": True, "exc": repr(e)})
+            recs.append(rec)
+            ctx.count()
     ctx.sample({"old": recs[0]["src"][0], "new": recs[0]["src"][1], "ops": jt.make_patch(*recs[0]["src"])})
     slim = [{k: v for k, v in r.items() if k not in ("src", "exc")} for r in recs]
     verd = ctx.judge("trace/Trace_Json.tla", "trace/Trace.cfg", slim, shards=16)
